@@ -360,15 +360,17 @@ func main() {
 				var tx *types.Transaction
 				var c concrete
 				if tg == tCreate {
-					if len(prog) >= 2 && k.nonce != 1 {
-						continue // see rule: creation with a bad nonce is enumerated for one-action init codes only
-					}
 					spec.Prog = prog
 					var ok bool
-					if tx, c, ok = spec.build(); !ok {
+					if c, ok = spec.concrete(); !ok {
 						a.n["skipped_degenerate_points"]++
 						continue
 					}
+					if len(prog) >= 2 && !c.expValid {
+						a.n["creation_points_left_to_one_action_init_codes"]++
+						continue // see rule: creations that fail a pre-check are enumerated for one-action init codes only
+					}
+					tx, c, _ = spec.build()
 				} else {
 					if tg == tCall {
 						spec.Prog = prog
